@@ -68,13 +68,38 @@ def check_cross(C, drv, gp, fa, mo, pf, pm, np, parents=None, hist=None):
     return o1, o2
 
 
+def term_values(root, skip):
+    """(path, copy of the value) of every terminal, in pre-order, leaving out the subtree hanging in slot `skip` =
+    (path of the slot's parent, is-left)"""
+    out = []
+
+    def go(n, path):
+        if n is None:
+            return
+        if n.type == 'TERMINAL':
+            out.append((path, None if n.value is None else lib.load()['np'].array(n.value, copy=True)))
+            return
+        for side, ch in (('L', n.left), ('R', n.right)):
+            if skip is not None and skip == (path, side == 'L'):
+                continue
+            go(ch, path + side)
+    go(root, '')
+    return out
+
+
 def check_mutate(C, drv, gp, s, p):
     L = lib.load()
+    np_ = L['np']
     sc = gpops.Script(C.rng).install()
     try:
         sp = gpops.make_space(C.rng, n_trees=1)
-        tree = T.build(s, terminals=[t.position for t in sp.terminals], term_ids=list(range(sp.n_terminals)))
+        # the parent's terminals either still are the space's terminal arrays (a tree straight out of grow) or private copies
+        # (a tree that went through reproduction / crossover / mutation before)
+        aliasing = C.rng.random() < 0.5
+        tree = T.build(s, terminals=[t.position if aliasing else np_.array(t.position, copy=True) for t in sp.terminals],
+                       term_ids=list(range(sp.n_terminals)))
         before = T.canon(tree)
+        vals_before = term_values(tree, None)
         ids = gpops.node_ids(tree)
         slot = gpops.slot_of(tree, p)
         sc.forced = [p]
@@ -112,6 +137,18 @@ def check_mutate(C, drv, gp, s, p):
             gb = rq.left if slot[1] else rq.right
             if gb is None or T.wf_oracle_sub(gb) or gb.max_depth > sp.max_depth:
                 C.issue('mutation-branch-not-grown', 'oracle', rp)
+    # … values included: every terminal outside the slot carries the value the parent's terminal had when _mutate was called
+    if slot is not None:
+        sk = (path_to(tree, slot[0]) or '', bool(slot[1]))
+        want = [(pa, v) for pa, v in vals_before if not in_slot(pa, sk)]
+        got_v = term_values(res, sk)
+        if [pa for pa, _ in want] == [pa for pa, _ in got_v]:
+            if any(not np_.array_equal(a, b, equal_nan=True) for (_, a), (_, b) in zip(want, got_v)):
+                C.issue('mutation-changed-values-outside-slot', 'oracle', dict(rp, aliasing=aliasing))
+    now = term_values(tree, None)
+    if any(not np_.array_equal(a, b, equal_nan=True) for (_, a), (_, b) in zip(vals_before, now)):
+        # K15: grow() re-samples the space's terminal arrays in place, and a parent that still aliases them changes with them
+        C.issue('mutation-changed-parent-values', 'oracle', dict(rp, aliasing=aliasing), known='K15' if aliasing else None)
     if set(gpops.node_ids(res)) & set(ids):
         C.issue('mutant-not-new', 'oracle', rp)
     if T.canon(tree) != before or gpops.node_ids(tree) != ids:
@@ -120,15 +157,20 @@ def check_mutate(C, drv, gp, s, p):
            kind='mutate-slot' if slot is not None else 'mutate-whole')
 
 
+def in_slot(path, sk):
+    pre = sk[0] + ('L' if sk[1] else 'R')
+    return path.startswith(pre)
+
+
 def path_to(root, target):
     def go(n, acc):
         if n is None:
             return None
         if n is target:
             return acc
-        return go(n.left, acc + 'L') or go(n.right, acc + 'R') if (go(n.left, acc + 'L') is not None or go(n.right, acc + 'R') is not None) else None
-    r = go(root, '')
-    return r
+        a = go(n.left, acc + 'L')
+        return a if a is not None else go(n.right, acc + 'R')
+    return go(root, '')
 
 
 def follow(root, path):
@@ -339,6 +381,29 @@ def check(ctx):
                 r2 = check_cross(C, drv, gp, None, None, pf, C.rng.randint(1, o2.n_nodes), np, parents=(o1, o2), hist=o1._c09_hist) or r2
             if r2:
                 check_cross(C, drv, gp, None, None, C.rng.randint(1, r2[0].n_nodes), C.rng.randint(1, r2[1].n_nodes), np, parents=r2, hist=r2[0]._c09_hist)
+        # deep parents (as bloat produces them in long runs): offspring far deeper than any depth limit of the space
+        def _comb(n_, left=True):
+            s_ = 'L'
+            for q_ in range(n_):
+                s_ = ('B', s_, 'L') if (left or q_ % 2) else ('B', 'L', s_)
+            return s_
+        def _chain(n_):
+            s_ = 'L'
+            for _ in range(n_):
+                s_ = ('U', s_)
+            return s_
+        deep = [_comb(20), _comb(14, left=False), _chain(24), ('B', _chain(18), _comb(16)), _comb(33)]
+        for k in range(12 if ctx['tier'] == 'quick' else 120):
+            fa, mo = C.rng.choice(deep), C.rng.choice(deep)
+            nf_, nm_ = T.shape_size(fa), T.shape_size(mo)
+            # points deep in the father, shallow in the mother (and the other way round): one offspring much deeper than both
+            deep_f = C.rng.choice([nf_ // 2, nf_ // 2 + 1, nf_ - 1, nf_, nf_ // 2 - 2])
+            deep_m = C.rng.choice([nm_ // 2, nm_ // 2 + 1, nm_ - 1, nm_, nm_ // 2 - 2])
+            pf = deep_f if k % 2 == 0 else C.rng.randint(2, 4)
+            pm = C.rng.randint(2, 4) if k % 2 == 0 else deep_m
+            r_ = check_cross(C, drv, gp, fa, mo, pf, pm, np)
+            if r_:
+                C.extra['deepest_offspring'] = max(C.extra.get('deepest_offspring', 0), r_[0].max_depth, r_[1].max_depth)
         if ctx['tier'] == 'thorough':
             d3 = T.shapes_upto(3)
             for k in range(1500):
@@ -446,7 +511,15 @@ def replay(prop, payload):
             check_repro(C, drv, gp, len(payload['fitness']), payload['fitness'], payload['selected'])
             return any(i['layer'] == 'oracle' for i in C.issues)
         if payload['how'] == 'mutate':
-            return True
+            # the grown branch depends on the draws: the replay re-runs the mutation cases on the parent's shape (and all
+            # other small shapes) until the rule fails again
+            for rep in range(3):
+                for s_ in T.shapes_upto(2):
+                    for p_ in range(1, T.shape_size(s_) + 2):
+                        check_mutate(C, drv, gp, s_, p_)
+                if any(i['layer'] == 'oracle' and not i.get('known') and 'mutat' in i['what'] for i in C.issues):
+                    return True
+            return False
     finally:
         drv.close()
     return True
